@@ -734,7 +734,18 @@ func (pl *planner) planPlonk(rn runner, commit string, widx int) {
 		mkN("multi-one-bad", "switch:proof0@key1,sibling@key1", plkcfg{"switch", false}, []item{{pA0, A, x0}, {pB, B, xB}}, []*plkInner{A, B}, []int{1, 1}),
 		mkN("multi-one-bad", "switch:swapped-selectors", plkcfg{"switch", true}, []item{{pA0, A, x0}, {pB, B, xB}}, []*plkInner{A, B}, []int{1, 0}),
 	}
-	for _, i := range sample(rng, len(multi), pick(r, emu, 1, len(multi), len(multi), len(multi))) {
+	// a proof whose only defect is a KZG opening quotient (the algebraic identity asserted per
+	// proof still holds): it must not slip through the batched opening check of several proofs
+	for _, e := range ops.PlonkSingleEdits(pA0, []any{pA1}, A.vk) {
+		if e.Changed && (e.Name == "BatchedProof.H:=neg" || e.Name == "ZShiftedOpening.H:=donor0.ZShiftedOpening.H") {
+			bad := e.Obj.(plonk.Proof)
+			multi = append(multi,
+				mkN("multi-one-bad", "same:proof0["+e.Name+"],proof1", plkcfg{"same", true}, []item{{bad, A, x0}, {pA1, A, x1}}, nil, nil),
+				mkN("multi-one-bad", "switch:proof0["+e.Name+"]@key0,sibling@key1", plkcfg{"switch", true}, []item{{bad, A, x0}, {pB, B, xB}}, []*plkInner{A, B}, []int{0, 1}))
+		}
+	}
+	pl.add(multi[len(multi)-1])
+	for _, i := range sample(rng, len(multi)-1, pick(r, emu, 1, len(multi), len(multi), len(multi))) {
 		pl.add(multi[i])
 	}
 
